@@ -24,7 +24,8 @@ def proj(o):
     ro = d.get("ro", 0)
     return {"n": o.n, "xs": list(o.xs), "nested": [list(x) for x in o.nested],
             "dl": [[int(k), list(v)] for k, v in sorted(o.dl.items())], "s": sorted(o.s),
-            "child": {"value": o.child.value, "items": list(o.child.items)}, "tmp": o.tmp,
+            "child": {"value": o.child.value, "items": list(o.child.items),
+                      "grid": [list(g) if type(g) is list else [777] for g in o.child.grid]}, "tmp": o.tmp,
             "ro": 0 if ro is Undefined or ro == 0 else ro, "kids": kids_pattern(o)}
 
 
@@ -39,9 +40,11 @@ def kids_pattern(o):
     return out
 
 
-def containers(o):
-    out = [o.xs, o.nested, o.dl, o.s, o.child, o.child.items, o.kids] + list(o.kids)
+def containers(o, deep=True):
+    out = [o.xs, o.nested, o.dl, o.s, o.child, o.child.items, o.kids, o.child.grid] + list(o.kids)
     out += list(o.nested) + list(o.dl.values())
+    if deep:
+        out += list(o.child.grid)      # plain lists inside List(Any): shared by a shallow clone by design
     return out
 
 
@@ -93,6 +96,10 @@ def step(o, dyn, op, v):
             o.child.value = cv
         elif op == "child_items":
             o.child.items.append(cv)
+        elif op == "grid_append":
+            o.cgrid.append([v])
+        elif op == "grid_inner":
+            o.child.grid[0].append(v)
         elif op == "kids_child":
             o.kids.append(o.child)
         elif op == "kids_new":
@@ -107,11 +114,11 @@ def step(o, dyn, op, v):
     except Exception as e:
         exc = type(e).__name__
     return {"op": op, "v": v, "pre": pre, "post": proj(o), "exc": exc, "obs": o.obs_count - obs0, "dyn": len(dyn) - dyn0,
-            "pobs": o.post_count - pobs0, "total": o.total}
+            "pobs": o.post_count - pobs0, "total": o.total, "total2": o.total2}
 
 
 OPS = ["kids_child", "kids_new", "kids_dup", "n_assign", "n_assign", "tmp_assign", "ro_assign", "xs_append", "xs_append", "xs_assign", "nested_append", "nested_inner", "dl_set",
-       "dl_inner", "s_add", "child_value", "child_items"]
+       "dl_inner", "s_add", "child_value", "child_items", "grid_append", "grid_inner"]
 
 
 def run_history(rnd, steps, t):
@@ -135,20 +142,21 @@ def run_history(rnd, steps, t):
                 c = None
             rec = {"tid": t, "step": s, "op": "copy", "v": 0, "kind": kind, "pre": pre, "exc": exc, "obs": 0, "dyn": 0, "pobs": 0}
             if c is not None:
-                ids = set(id(x) for x in containers(o))
-                shared = sum(1 for x in containers(c) if id(x) in ids)
+                deep = kind != "clone_shallow"
+                ids = set(id(x) for x in containers(o, deep))
+                shared = sum(1 for x in containers(c, deep) if id(x) in ids)
                 rec.update(post=proj(c), sameclass=1 if type(c) is type(o) else 0, shared=shared, total=c.total,
-                           orig_after=proj(o))
+                           total2=c.total2, orig_after=proj(o))
                 o = c
                 dyn = []
                 handler = (lambda d: (lambda: d.append(1)))(dyn)
                 o.on_trait_change(handler, "xs_items")
             else:
-                rec.update(post=pre, sameclass=1, shared=0, total=0, orig_after=pre)
+                rec.update(post=pre, sameclass=1, shared=0, total=0, total2=0, orig_after=pre)
             out.append(rec)
             continue
         op = rnd.choice(OPS)
-        v = rnd.choice([1, 2, 3, BAD]) if op not in ("tmp_assign", "nested_append", "dl_set", "xs_assign") else rnd.choice([1, 2, 3])
+        v = rnd.choice([1, 2, 3, BAD]) if op not in ("tmp_assign", "nested_append", "dl_set", "xs_assign", "grid_append", "grid_inner") else rnd.choice([1, 2, 3])
         r = step(o, dyn, op, v)
         r.update(tid=t, step=s, kind="")
         out.append(r)
